@@ -2428,10 +2428,270 @@ def gen_c16b(read, num):
     return lines, broken
 
 
+def gen_c02(read, num):
+    """C02 part: the resource-relevant shape of crates/erltf/src/decoder.rs that the resource model (Impl/DecodeMeter.lean)
+    transcribes — every pre-allocation site and its argument, the depth argument of every recursive `parse_term` call, the
+    size guards, the inflate limit, every index / slice expression, every `as usize` cast with the width of its source,
+    the public decoding functions, and the frame limits of the connection."""
+    broken = []
+    lines = []
+    dec = read("crates/erltf/src/decoder.rs")
+    conn = read("crates/edp_client/src/connection.rs")
+    framing = read("crates/edp_client/src/framing.rs")
+    caps, depths, guards, idx, casts, pubs = [], [], [], [], [], []
+    bc_body, take_arg = "", ""
+    if dec is None:
+        broken.append("decoder.rs missing")
+    else:
+        text = re.sub(r"//[^\n]*", "", dec)
+        fns = [(m.start(), m.group(1)) for m in re.finditer(r"\bfn\s+([a-z_0-9]+)\s*[<(]", text)]
+
+        def fn_at(pos):
+            name = "?"
+            for p0, n in fns:
+                if p0 < pos:
+                    name = n
+            return name
+
+        def balanced(start):
+            """text of the parenthesised argument list that opens at text[start] == '('"""
+            d = 0
+            for j in range(start, len(text)):
+                if text[j] == "(":
+                    d += 1
+                elif text[j] == ")":
+                    d -= 1
+                    if d == 0:
+                        return text[start + 1:j]
+            return None
+
+        for m in re.finditer(r"\bwith_capacity\s*\(", text):
+            a = balanced(m.end() - 1)
+            if a is None:
+                broken.append("unbalanced with_capacity(")
+                continue
+            caps.append((fn_at(m.start()), re.sub(r"\s+", "", a)))
+        if not caps:
+            broken.append("no with_capacity( site found in decoder.rs")
+        for m in re.finditer(r"\bparse_term\s*\(", text):
+            if text[max(0, m.start() - 3):m.start()] == "fn ":
+                continue
+            a = balanced(m.end() - 1)
+            if a is None:
+                broken.append("unbalanced parse_term(")
+                continue
+            parts = [re.sub(r"\s+", "", x) for x in a.split(",")]
+            if len(parts) != 3:
+                broken.append("parse_term( call without three arguments: " + a)
+                continue
+            depths.append((fn_at(m.start()), parts[2]))
+        if not depths:
+            broken.append("no parse_term( call found in decoder.rs")
+        for m in re.finditer(r"if\s+([a-z_]+)\s+as\s+usize\s*>\s*(MAX_[A-Z_]+)\s*\{", text):
+            guards.append((fn_at(m.start()), m.group(2)))
+        b = _fn_body(text, r"fn\s+bounded_capacity\s*\(")
+        if b is None:
+            broken.append("fn bounded_capacity not found in decoder.rs")
+        else:
+            bc_body = re.sub(r"\s+", "", b)
+        pc = _fn_body(text, r"fn\s+parse_compressed\s*<")
+        if pc is None:
+            broken.append("fn parse_compressed not found in decoder.rs")
+        else:
+            mt = re.search(r"\.take\s*\(", pc)
+            if not mt or "read_to_end" not in pc:
+                broken.append("parse_compressed: `.take(..).read_to_end(..)` not found")
+            else:
+                d, j0 = 0, mt.end() - 1
+                for j in range(j0, len(pc)):
+                    if pc[j] == "(":
+                        d += 1
+                    elif pc[j] == ")":
+                        d -= 1
+                        if d == 0:
+                            take_arg = re.sub(r"\s+", "", pc[j0 + 1:j])
+                            break
+        # index / slice expressions `name[...]` (not attributes, not array types or literals)
+        for m in re.finditer(r"(?<![#A-Za-z0-9_])([a-z_][a-z_0-9]*)\s*\[([^\[\]]*)\]", text):
+            inner = m.group(2).strip()
+            if m.group(1) in ("vec", "allow", "derive") or inner in ("", "u8") or re.fullmatch(r"0u8;\s*16", inner):
+                continue
+            idx.append((fn_at(m.start()), m.group(1) + "[" + re.sub(r"\s+", "", inner) + "]"))
+        # `x as usize` with the reader that bound x in the same function
+        for m in re.finditer(r"\b([a-z_][a-z_0-9]*(?:\.[a-z_]+\(\))?)\s+as\s+usize\b", text):
+            var = m.group(1)
+            fn = fn_at(m.start())
+            body = _fn_body(text, r"fn\s+" + fn + r"\s*[<(]") or ""
+            src = "?"
+            mb = re.search(r"let\s*\(\s*[a-z_]+\s*,\s*" + re.escape(var) + r"\s*\)\s*=\s*be_(u8|u16|u32|u64)\s*\(", body)
+            if mb:
+                src = mb.group(1)
+            elif var == "decoder.total_in()":
+                src = "u64"
+            elif var in ("i",):
+                mi = re.search(r"for\s+i\s+in\s+0\.\.([a-z_]+)", body)
+                if mi:
+                    mb2 = re.search(r"let\s*\(\s*[a-z_]+\s*,\s*" + mi.group(1) + r"\s*\)\s*=\s*be_(u8|u16|u32|u64)\s*\(", body)
+                    src = mb2.group(1) if mb2 else "?"
+            casts.append((var, src))
+        for m in re.finditer(r"pub\s+fn\s+([a-z_0-9]+)\s*(?:<[^>]*>)?\s*\(\s*([a-z_]+)\s*:\s*&(?:'[a-z]+\s+)?\[u8\]", text):
+            pubs.append(m.group(1))
+        if not pubs:
+            broken.append("no public decoding function found in decoder.rs")
+
+    def limit(src, fname):
+        if src is None:
+            broken.append(fname + " missing")
+            return 0
+        m = re.search(r"const\s+MAX_MESSAGE_SIZE\s*:\s*usize\s*=\s*([0-9_*\s]+);", src)
+        if not m:
+            broken.append("const MAX_MESSAGE_SIZE not found in " + fname)
+            return 0
+        v = 1
+        for f in m.group(1).split("*"):
+            v *= num(f.strip())
+        return v
+
+    conn_limit = limit(conn, "connection.rs")
+    framing_limit = limit(framing, "framing.rs")
+
+    def pairs(xs):
+        return "[" + ", ".join('("' + a + '", "' + b + '")' for a, b in xs) + "]"
+
+    def strs(xs):
+        return "[" + ", ".join('"' + x + '"' for x in xs) + "]"
+
+    def uniq(xs):
+        out = []
+        for x in xs:
+            if x not in out:
+                out.append(x)
+        return out
+
+    lines.append("/-- every `with_capacity(..)` of crates/erltf/src/decoder.rs: function and argument -/")
+    lines.append(f"def C02_CAPACITY_SITES : List (String × String) := {pairs(caps)}")
+    lines.append("/-- body of `bounded_capacity` -/")
+    lines.append(f'def C02_BOUNDED_CAPACITY : String := "{bc_body}"')
+    lines.append("/-- depth argument of every call of `parse_term` in decoder.rs, with the calling function -/")
+    lines.append(f"def C02_PARSE_TERM_DEPTHS : List (String × String) := {pairs(depths)}")
+    lines.append("/-- `if <count> as usize > MAX_…` guards: function and limit -/")
+    lines.append(f"def C02_SIZE_GUARDS : List (String × String) := {pairs(guards)}")
+    lines.append("/-- how many bytes `parse_compressed` lets the inflater produce -/")
+    lines.append(f'def C02_INFLATE_TAKE : String := "{take_arg}"')
+    lines.append("/-- every index / slice expression of decoder.rs (the sites that can panic), with its function -/")
+    lines.append(f"def C02_INDEX_SITES : List (String × String) := {pairs(idx)}")
+    lines.append("/-- every `<expr> as usize` of decoder.rs with the type the expression was read as (distinct ones) -/")
+    lines.append(f"def C02_USIZE_CASTS : List (String × String) := {pairs(uniq(casts))}")
+    lines.append("/-- the public functions of decoder.rs that take a byte slice -/")
+    lines.append(f"def C02_PUBLIC_DECODERS : List String := {strs(pubs)}")
+    lines.append("/-- `MAX_MESSAGE_SIZE` of connection.rs and of framing.rs: the longest frame handed to a decoder -/")
+    lines.append(f"def C02_CONNECTION_FRAME_LIMIT : Nat := {conn_limit}")
+    lines.append(f"def C02_FRAMING_FRAME_LIMIT : Nat := {framing_limit}")
+    lines.append("")
+    return lines, broken
+
+
+def gen_c01(read, num):
+    """C01 part: every size decision of encoder.rs — the width thresholds (small/large forms), the `try_from` guards
+    with the error each one maps to, and every cast of a length that has no guard in front of it."""
+    broken = []
+    lines = []
+    src = read("crates/erltf/src/encoder.rs")
+    guards = []
+    casts = []
+    th = {"SMALL_INT_MAX": 0, "SMALL_BIG_MAX": 0, "BIGINT_SMALL_MAX": 0, "SMALL_ATOM_MAX": 0, "SMALL_TUPLE_MAX": 0}
+    int32 = False
+    atom_limit_ty = ""
+    fns = ["encode_atom_impl", "encode_integer", "encode_float", "encode_binary", "encode_bit_binary", "encode_string",
+           "encode_list_impl", "encode_improper_list_impl", "encode_map_impl", "encode_tuple_impl", "encode_pid_impl",
+           "encode_port_impl", "encode_reference_impl", "encode_bigint", "encode_nil", "encode_export_ext_impl",
+           "encode_new_fun_ext_impl"]
+    if src is None:
+        broken.append("encoder.rs missing")
+    else:
+        code = re.sub(r"//[^\n]*", "", src)
+        bodies = {}
+        for f in fns:
+            b = _fn_body(code, r"fn\s+" + f + r"\b[^{;]*\{")
+            if b is None:
+                broken.append(f"fn {f} not found in encoder.rs")
+                b = ""
+            bodies[f] = b
+        # every term-encoding function of the dispatch must be one of the above
+        disp = _fn_body(code, r"fn\s+encode_term_impl\b[^{;]*\{") or ""
+        for callee in re.findall(r"=>\s*\{?\s*(encode_[a-z_]+)\(", disp):
+            if callee not in fns:
+                broken.append(f"encode_term_impl dispatches to {callee}, which the C01 table does not know")
+        for f in fns:
+            b = bodies[f]
+            for ty, what, err in re.findall(r"(u8|u16|u32|u64)::try_from\(\s*([A-Za-z_\.]+?)\.len\(\)\s*\)\s*\.map_err\(\s*\|_\|\s*EncodeError::([A-Za-z]+)", b):
+                guards.append((f, ty, err))
+            guarded = bool(re.search(r"::try_from\(", b))
+            for expr, ty in re.findall(r"(\(?[a-z_\.]+(?:\(\))?(?:\s*\+\s*\d+\))?)\s+as\s+(u8|u16|u32)\b", b):
+                e = re.sub(r"\s+", "", expr)
+                if e.count("(") > e.count(")"):
+                    e = e.lstrip("(")
+                # a cast of something that is (or contains) a length / count
+                if "len" in e:
+                    casts.append((f, e + " as " + ty))
+        b = bodies["encode_atom_impl"]
+        m = re.search(r"if\s+len\s*>\s*(u8|u16|u32)::MAX\s+as\s+usize\s*\{\s*return\s+Err\(\s*EncodeError::([A-Za-z]+)", b)
+        if not m:
+            broken.append("encode_atom_impl: `if len > uN::MAX as usize { return Err(EncodeError::X` not found")
+        else:
+            atom_limit_ty = m.group(1)
+            guards.insert(0, ("encode_atom_impl", m.group(1), m.group(2)))
+        m = re.search(r"if\s+len\s*>\s*([0-9_]+)\s*\{\s*buf\.put_u8\(ATOM_UTF8_EXT\)", b)
+        if not m:
+            broken.append("encode_atom_impl: `if len > <n> { buf.put_u8(ATOM_UTF8_EXT)` not found")
+        else:
+            th["SMALL_ATOM_MAX"] = num(m.group(1))
+        b = bodies["encode_integer"]
+        m = re.search(r"if\s+\(0\.\.=([0-9_]+)\)\.contains\(&value\)\s*\{\s*buf\.put_u8\(SMALL_INTEGER_EXT\)", b)
+        if not m:
+            broken.append("encode_integer: `if (0..=<n>).contains(&value) { buf.put_u8(SMALL_INTEGER_EXT)` not found")
+        else:
+            th["SMALL_INT_MAX"] = num(m.group(1))
+        int32 = bool(re.search(r"else\s+if\s+value\s*>=\s*i32::MIN\s+as\s+i64\s*&&\s*value\s*<=\s*i32::MAX\s+as\s+i64\s*\{\s*buf\.put_u8\(INTEGER_EXT\)", b))
+        if not int32:
+            broken.append("encode_integer: `else if value >= i32::MIN as i64 && value <= i32::MAX as i64 { buf.put_u8(INTEGER_EXT)` not found")
+        m = re.search(r"if\s+significant_len\s*<=\s*([0-9_]+)\s*\{\s*buf\.put_u8\(SMALL_BIG_EXT\)", b)
+        if not m:
+            broken.append("encode_integer: `if significant_len <= <n> { buf.put_u8(SMALL_BIG_EXT)` not found")
+        else:
+            th["SMALL_BIG_MAX"] = num(m.group(1))
+        m = re.search(r"if\s+len\s*<=\s*([0-9_]+)\s*\{\s*buf\.put_u8\(SMALL_BIG_EXT\)", bodies["encode_bigint"])
+        if not m:
+            broken.append("encode_bigint: `if len <= <n> { buf.put_u8(SMALL_BIG_EXT)` not found")
+        else:
+            th["BIGINT_SMALL_MAX"] = num(m.group(1))
+        m = re.search(r"if\s+elements\.len\(\)\s*<=\s*([0-9_]+)\s*\{\s*buf\.put_u8\(SMALL_TUPLE_EXT\)", bodies["encode_tuple_impl"])
+        if not m:
+            broken.append("encode_tuple_impl: `if elements.len() <= <n> { buf.put_u8(SMALL_TUPLE_EXT)` not found")
+        else:
+            th["SMALL_TUPLE_MAX"] = num(m.group(1))
+        if not re.search(r"if\s+elements\.is_empty\(\)\s*\{\s*return\s+encode_nil\(buf\)", bodies["encode_list_impl"]):
+            broken.append("encode_list_impl: `if elements.is_empty() { return encode_nil(buf)` not found")
+
+    def triple(t):
+        return "(" + ", ".join('"' + x + '"' for x in t) + ")"
+    lines.append("/-- encoder.rs: every size guard of the term encoder as (function, integer type the length must fit, `EncodeError` variant) -/")
+    lines.append("def C01_ENC_SIZE_GUARDS : List (String × String × String) := [" + ", ".join(triple(g) for g in guards) + "]")
+    lines.append("/-- encoder.rs: every `<length expression> as uN` cast in the term encoder, as (function, cast) -/")
+    lines.append("def C01_ENC_LEN_CASTS : List (String × String) := [" + ", ".join(triple(c) for c in casts) + "]")
+    lines.append("/-- encoder.rs width thresholds: largest value / length written in the small form -/")
+    for k in ("SMALL_INT_MAX", "SMALL_BIG_MAX", "BIGINT_SMALL_MAX", "SMALL_ATOM_MAX", "SMALL_TUPLE_MAX"):
+        lines.append(f"def C01_ENC_{k} : Nat := {th[k]}")
+    lines.append("/-- `encode_integer` writes INTEGER_EXT exactly for the remaining values of the i32 range -/")
+    lines.append(f"def C01_ENC_INT32_RANGE : Bool := {'true' if int32 else 'false'}")
+    lines.append("")
+    return lines, broken
+
+
 def run(read, emit, num):
     body = "namespace Edp.Gen\n\n"
     broken = []
-    for part in (gen_c16, gen_c09, gen_c04, gen_c15, gen_c13, gen_c18, gen_c19, gen_state, gen_c20, gen_c05, gen_c08, gen_c10, gen_c11, gen_c07, gen_c14, gen_c16b):
+    for part in (gen_c16, gen_c09, gen_c04, gen_c15, gen_c13, gen_c18, gen_c19, gen_state, gen_c20, gen_c05, gen_c08, gen_c10, gen_c11, gen_c07, gen_c14, gen_c16b, gen_c02, gen_c01):
         ls, br = part(read, num)
         body += "\n".join(ls) + "\n"
         broken += br
